@@ -100,8 +100,12 @@ def write_site_check(C):
 
 def build():
     C = ContractSet("C14", "Serial links: framing, integrity and command flow control")
+    C.decode_may_fail = True
     C.strings = True
     C.finite_checks.append(crc_table_check)
+    C.finite_checks.append(common.native_demo_check(
+        "c14_noise_byte_ends_fast_reader.py",
+        'a frame with a byte that is not UTF-8 does not end the FAST reader: the frames that follow are decoded'))
     C.finite_checks.append(common.native_demo_check(
         'c14_unrelated_frame_cancels_retry.py',
         'a lost response is retried as configured also when an unrelated frame (a switch report) arrives during the timeout'))
@@ -352,7 +356,10 @@ def build():
               "dispatched_segment(old_iter(self.received_msg), self.received_msg)")])},
          ensures=[("the parser stops only when no complete message is left (or on shutdown)",
                    "not has_cr(self.received_msg) or self.machine.is_shutting_down")],
-         modifies=["self.received_msg"], raises={"UnicodeDecodeError": "not self.ignore_decode_errors"})
+         modifies=["self.received_msg"],
+         # from the property: "after line noise the decoder resynchronises so that subsequent valid frames are decoded
+         # again" - a frame that does not decode must not end the parser (the read task dies with the exception)
+         raises={})
 
     # ---- lost responses are retried as configured
     C.ghost.update(dict(n_queued=Int))
